@@ -5,10 +5,13 @@ Structural clauses decided (DESIGN.md section 4, C09):
      chain-id and block-hash comparisons; the cached verification entry is only built on the
      success edge of the quorum check; the comparison helpers return Ok only on equality.
  Q2  quorum arithmetic shape: no divide-before-multiply, no saturating/wrapping shortcut in the
-     threshold; total power summed with checked_add.
+     threshold; the only multiplications are 3*committed and 2*total (canonical formulas); the
+     comparison is strict; total power summed with checked_add.
  Q3  the power tally is dominated by signature verification, set membership, address equality
      and a first-occurrence guard on the validator address.
- Q4  rollup data is attached only on the success edge of the Merkle-proof check.
+ Q4  rollup data is attached only on the success edge of the Merkle-proof check; a header
+     leaves the map only behind the successful lookup-and-verify; the reconstruction loops
+     run to exhaustion.
  Q5  malformed blobs: no panic construct reachable from the blob decoding/reconstruction entry
      points (workspace code), decode failures are dropped not propagated.
 """
